@@ -25,12 +25,41 @@ def explicit_sets(enc) -> int:
                for side in ('provides', 'requires') for sel in enc[side].values())
 
 
+FAMILIES = [
+    ['qAbc', 'qabc', 'qABC', 'qaBc'],          # equal when case-folded (first letter kept: D12)
+    ['p_a1', 'pa1', 'p_a_1', 'pa_1'],          # equal when underscores are dropped
+    ['raa', 'rab', 'rac', 'rad'],              # equal length, equal prefix
+    ['s1', 's01', 's001', 's0001'],            # equal as numbers
+    ['tX', 'tXx', 'tXxx', 'tXxxx'],            # equal first two characters
+]
+
+
+def rename_to_family(rng: random.Random, gen, ent, info):
+    """Rename the exposed ports of the encapsulee to near-duplicate names: orderings that rely
+    on a non-injective key (case-folded, stripped, by length ...) then fall back to set order."""
+    comp = ent[1]
+    fam = rng.choice(FAMILIES)
+    for side, tag in (('provides', 'P'), ('requires', 'R')):
+        ports = [p for p in comp.ports if p.direction == side and not p.injected]
+        names = [n[0] + tag + n[1:] for n in fam]
+        rng.shuffle(names)
+        for port, name in zip(ports[:len(names)], names):
+            port.name = name
+    return cfggen.comp_info(gen, ent)
+
+
 def gen_cases(rng: random.Random, count: int):
     cases = []
     tries = 0
     while len(cases) < count and tries < count * 200:
         tries += 1
-        gen, _ent, enc, info = cfggen.gen_shell_case(rng, hostile_text=True)
+        gen, ent, enc, info = cfggen.gen_shell_case(rng, hostile_text=True)
+        if tries % 2 == 0 and not enc.get('multiclient') and \
+                max(len(info['provides']), len(info['requires'])) >= 2:
+            info = rename_to_family(rng, gen, ent, info)
+            enc = dict(cfggen.rand_cfg(rng, gen, ent, multiclient=False, hostile_text=True),
+                       requires={'sts': 'REMAINING', 'mts': 'NONE'},
+                       provides={'sts': 'NONE', 'mts': 'ALL'})
         want = 2 if len(cases) < count * 0.8 else 0
         if explicit_sets(enc) < want:
             # force explicit name sets where the component has enough ports
